@@ -7,6 +7,7 @@ package main
 import (
 	"fmt"
 	"sort"
+	"strings"
 	"go/token"
 	"go/types"
 
@@ -309,7 +310,42 @@ func ruleC18PtrFormat(p *Prog, a *Anchors, r *Report) {
 					}
 					seenSite[in] = true
 					raw := false
+					lossy := ""
+					var origin func(v ssa.Value, d int)
+					origin = func(v ssa.Value, d int) {
+						if v == nil || d > 5 {
+							return
+						}
+						if mi, ok := v.(*ssa.MakeInterface); ok {
+							v = mi.X
+						}
+						v = stripLoad(v)
+						if phi, ok := v.(*ssa.Phi); ok {
+							for _, e := range phi.Edges {
+								origin(e, d+1)
+							}
+							return
+						}
+						if cv, ok := v.(*ssa.Convert); ok {
+							origin(cv.X, d+1)
+							return
+						}
+						ic, ok := v.(*ssa.Call)
+						if !ok || ic.Common().StaticCallee() == nil || len(ic.Common().Args) == 0 {
+							return
+						}
+						if _, isParam := ic.Common().Args[0].(*ssa.Parameter); !isParam {
+							return
+						}
+						switch ic.Common().StaticCallee() {
+						case p.Method("Value", "Integer"):
+							lossy = "Integer() (saturates an unsigned value no int holds)"
+						case p.Method("Value", "Float"):
+							lossy = "Float() (widens a float32: 0.1 prints as 0.10000000149011612)"
+						}
+					}
 					for _, v := range vals {
+						origin(v, 0)
 						if mi, ok := v.(*ssa.MakeInterface); ok {
 							v = mi.X
 						}
@@ -320,6 +356,11 @@ func ruleC18PtrFormat(p *Prog, a *Anchors, r *Report) {
 						if _, isParam := ic.Common().Args[0].(*ssa.Parameter); isParam {
 							raw = true
 						}
+					}
+					if lossy != "" && !raw {
+						n++
+						r.Bad("filter "+name+":formats-accessor", p.InstrPos(in), "what the filter hands fmt, with a format the template gives, can be the input's %s: the number that is formatted is not the one the template was given", lossy)
+						continue
 					}
 					n++
 					if raw {
@@ -333,5 +374,110 @@ func ruleC18PtrFormat(p *Prog, a *Anchors, r *Report) {
 	}
 	if n == 0 {
 		r.Trivial("none", "-", "no filter formats its input with a template-given format")
+	}
+}
+
+// R-C18-FIRSTBYLEN: "join … for all arguments" puts the separator between every two items, empty items included. A
+// loop that recognises "not the first item" by the length of what it has written so far (`if b.Len() > 0 { sep }`)
+// also sees "first" after every run of empty items: the separators around them are lost (["", "a", ""]|join:"-" gives
+// "a" instead of "-a-"). The idiom is right only when every pass writes at least one byte (runes, bytes); it is
+// reported where the loop writes a string or byte slice that can be empty into the same accumulator.
+func ruleC18FirstByLen(p *Prog, a *Anchors, r *Report) {
+	r.Begin("R-C18-FIRSTBYLEN", "a filter loop that writes a separator only when its output so far is non-empty writes, per pass, something that cannot be empty (a rune, a byte): an empty item does not make the next one \"the first\"", 0)
+	scope := map[*ssa.Function]bool{}
+	for _, ff := range a.FilterFuncs {
+		for _, g := range clusterOf(p, ff, 2) {
+			scope[g] = true
+		}
+	}
+	accOf := func(v ssa.Value) string {
+		// the accumulator a Len()/Write* call works on: the receiver value
+		return p.VN(v)
+	}
+	n := 0
+	for _, f := range p.inPkgFuncsSorted(p.allFuncSet()) {
+		if !scope[topLevel(f)] && !scope[f] {
+			continue
+		}
+		for _, b := range f.Blocks {
+			iff, ok := b.Instrs[len(b.Instrs)-1].(*ssa.If)
+			if !ok {
+				continue
+			}
+			hdr := innermostLoopHeader(b)
+			if hdr == nil {
+				continue
+			}
+			bo, ok := iff.Cond.(*ssa.BinOp)
+			if !ok || (bo.Op != token.GTR && bo.Op != token.NEQ) {
+				continue
+			}
+			if k, isK := constInt(bo.Y); !isK || k != 0 {
+				continue
+			}
+			lc, ok := bo.X.(*ssa.Call)
+			if !ok || lc.Common().StaticCallee() == nil {
+				continue
+			}
+			switch p.extName(lc.Common().StaticCallee()) {
+			case "(*strings.Builder).Len", "(*bytes.Buffer).Len":
+			default:
+				continue
+			}
+			acc := accOf(lc.Common().Args[0])
+			// the guarded block writes into the accumulator …
+			sepBlock := b.Succs[0]
+			writesSep := false
+			for _, in := range sepBlock.Instrs {
+				if c, ok := in.(*ssa.Call); ok && c.Common().StaticCallee() != nil && len(c.Common().Args) > 0 && accOf(c.Common().Args[0]) == acc {
+					if strings.Contains(p.extName(c.Common().StaticCallee()), ").Write") {
+						writesSep = true
+					}
+				}
+			}
+			if !writesSep {
+				continue
+			}
+			// … and the loop writes, outside it, a payload that can be empty
+			var emptyable ssa.Instruction
+			nonEmpty := false
+			for _, lb := range f.Blocks {
+				if !hdr.Dominates(lb) || !ReachableBlocks(lb)[hdr] || lb == sepBlock {
+					continue
+				}
+				for _, in := range lb.Instrs {
+					c, ok := in.(*ssa.Call)
+					if !ok || c.Common().StaticCallee() == nil || len(c.Common().Args) < 2 || accOf(c.Common().Args[0]) != acc {
+						continue
+					}
+					switch name := p.extName(c.Common().StaticCallee()); {
+					case strings.HasSuffix(name, ").WriteRune"), strings.HasSuffix(name, ").WriteByte"):
+						nonEmpty = true
+					case strings.HasSuffix(name, ").WriteString"), strings.HasSuffix(name, ").Write"):
+						if s, isC := constString(c.Common().Args[1]); isC && s != "" {
+							nonEmpty = true
+						} else {
+							emptyable = in
+						}
+					}
+				}
+			}
+			n++
+			key := p.FuncName(topLevel(f)) + ":separator-by-length"
+			if n > 1 {
+				key += "#" + fmt.Sprint(n)
+			}
+			switch {
+			case emptyable != nil:
+				r.Bad(key, p.InstrPos(iff), "the separator is written only when the output so far is non-empty, and the loop writes items that can be empty (%s): after an empty item the next one counts as the first again, so the separators around empty items are lost ([\"\", \"a\", \"\"]|join:\"-\" gives \"a\" instead of \"-a-\")", p.InstrPos(emptyable))
+			case nonEmpty:
+				r.OK(key, p.InstrPos(iff), "every pass writes at least one rune/byte: \"output non-empty\" is \"not the first item\"")
+			default:
+				r.Assume(key, p.InstrPos(iff), "what the loop writes per pass was not recognised")
+			}
+		}
+	}
+	if n == 0 {
+		r.Trivial("none", "-", "no filter loop decides \"first item\" by the length of its output")
 	}
 }
